@@ -45,6 +45,10 @@ func Escape(str string, isBytes bool) (string, error) {
 				} else {
 					buf = append(buf, `\t`...)
 				}
+			case '\r':
+				// A raw carriage return in source text is normalized to a
+				// newline by Unescape, so it has to be written as an escape.
+				buf = append(buf, `\x0d`...)
 			case '\\':
 				if isBytes {
 					buf = append(buf, `\x5c`...)
